@@ -69,6 +69,12 @@ template <class GX, class GY, class TT, class TS> static Dig constOps(const GX& 
   return d;
 }
 
+// normalize() exists for the groups that carry rotation data (not Rn, not Bundle): detected, not assumed
+template <class T, class = void> struct HasNormalize : std::false_type {};
+template <class T> struct HasNormalize<T, decltype(void(std::declval<T&>().normalize()))> : std::true_type {};
+template <class V, class G> static void doNormalize(V& v, G& own, std::true_type) { v.normalize(); own.normalize(); }
+template <class V, class G> static void doNormalize(V&, G&, std::false_type) {}
+
 void runOnce(const Args&) {}
 
 void runCase(long long i, Prng& r, const Args& a) {
@@ -130,6 +136,13 @@ void runCase(long long i, Prng& r, const Args& a) {
     V = V * V; checkG("self-product", X * X);
     V.coeffs()(REP - 1) = Y.coeffs()(REP - 1); { MonG w = X; w.coeffs()(REP - 1) = Y.coeffs()(REP - 1); checkG("coeffs()(i)=", w); }
     V[0] = Y[0]; { MonG w = X; w[0] = Y[0]; checkG("operator[]=", w); }
+    if (HasNormalize<MonG>::value) {   // normalize() through a view: scaled data in the buffer, same result as the owning object, nothing adjacent touched
+      MonG w = X; MonS sc = (MonS)r.uni(0.5, 2.0);
+      for (int b = 0; b < g.nb(); ++b) { const ref::Elem& e = g.el[b]; int nq = e.rot == 2 ? 2 : e.rot == 3 ? 4 : 0; for (int k = 0; k < nq; ++k) w.coeffs()(g.repOff[b] + e.rotCoef + k) *= sc; }
+      bx.load(w.coeffs());
+      doNormalize(V, w, HasNormalize<MonG>());
+      checkG("normalize", w);
+    }
     auto checkT = [&](const char* what, const MonT& want) {
       Dig got = bt.dump(), w; put(w, want.coeffs());
       bool ok = sameBits(got, w) && bt.intact() && bs.intact();
